@@ -78,7 +78,21 @@ func (fr *Frame) call(site ssa.Instruction, c *ssa.CallCommon, reach T, st *Stat
 	ex := fr.ex
 	// builtins
 	if b, ok := c.Value.(*ssa.Builtin); ok {
-		return fr.builtin(site, b, c, reach, st)
+		bind := map[string]Val{}
+		for i, a := range c.Args {
+			if _, isLV := fr.lvals[a]; !isLV {
+				bind[fmt.Sprintf("arg%d", i)] = Val{t: fr.val(a), typ: a.Type()}
+			}
+		}
+		fr.ghostAt("call", fr.callOrd[site], b.Name(), "before", reach, st, bind)
+		res := fr.builtin(site, b, c, reach, st)
+		if len(res) == 1 {
+			if v, ok := site.(ssa.Value); ok {
+				bind["result"] = Val{t: res[0], typ: v.Type()}
+			}
+		}
+		fr.ghostAt("call", fr.callOrd[site], b.Name(), "after", reach, st, bind)
+		return res
 	}
 	// statically known closures: inline
 	if mc, ok := c.Value.(*ssa.MakeClosure); ok {
@@ -111,6 +125,12 @@ func (fr *Frame) call(site ssa.Instruction, c *ssa.CallCommon, reach T, st *Stat
 		args = append(args, v)
 	}
 	_ = recvNames
+	// a closure handed to a callee that is not inlined may run any number of times: everything it can assign is havoced
+	for _, a := range c.Args {
+		if mc, ok := a.(*ssa.MakeClosure); ok {
+			fr.havocClosureEffects(site, mc, reach, st)
+		}
+	}
 	key := calleeKey(c)
 	fc := ex.L.contracts.Funcs[key]
 	name := fr.callName[site]
@@ -594,4 +614,78 @@ func (fr *Frame) copyBuiltin(site ssa.Instruction, c *ssa.CallCommon, reach T, s
 		r.s, doff.s, doff.s, n.s, srcRow.s, soff.s, doff.s, oldRow.s, r.s))
 	ex.set(st, comp, ite(eq(darr, tNil), elems, store(elems, darr, r)))
 	return n
+}
+
+// havocClosureEffects: the closure's body is executed once in dry mode on arbitrary arguments to find the state
+// components it can assign; those components become arbitrary (sound over-approximation of zero or more invocations).
+func (fr *Frame) havocClosureEffects(site ssa.Instruction, mc *ssa.MakeClosure, reach T, st *State) {
+	ex := fr.ex
+	fn := mc.Fn.(*ssa.Function)
+	if len(fn.Blocks) == 0 {
+		return
+	}
+	snapScript, snapN := len(ex.script), ex.n
+	ex.dry++
+	sub := ex.newFrame(fn, fr)
+	sub.entry = fr.entry
+	st2 := st.clone()
+	for _, p := range fn.Params {
+		sub.vals[p] = ex.freshOfType("cl_"+p.Name(), p.Type(), reach, st2)
+	}
+	for i, fv := range fn.FreeVars {
+		b := mc.Bindings[i]
+		if lv, ok := fr.lvals[b]; ok && lv.kind == "comp" {
+			sub.lvals[fv] = lv
+		} else {
+			sub.vals[fv] = fr.val(b)
+		}
+	}
+	sub.params = fr.params
+	sub.runRegion(nil, fn.Blocks[0], reach, st2, false)
+	ex.dry--
+	ex.script = ex.script[:snapScript]
+	modified := map[string]bool{}
+	for _, r := range sub.rets {
+		for k := range r.st.m {
+			if ex.get(r.st, k).s != ex.get(st, k).s {
+				modified[k] = true
+			}
+		}
+	}
+	for _, k := range sortedKeys(modified) {
+		if strings.HasPrefix(k, "Armed$") || strings.HasPrefix(k, "Visited$") {
+			continue
+		}
+		if k == "Alloc" {
+			continue // allocation only grows; objects known so far stay allocated
+		}
+		// components written only at indices that do not depend on the closure's arguments are havoced there only
+		if strings.HasPrefix(ex.comps[k], "(Array Ref") {
+			base := ex.get(st, k)
+			ok := true
+			var idxs []string
+			for _, r := range sub.rets {
+				ix, fresh, ok2 := ex.writtenIndices(ex.get(r.st, k).s, base.s, snapN)
+				if !ok2 || fresh {
+					ok = false
+					break
+				}
+				idxs = append(idxs, ix...)
+			}
+			if ok {
+				t := base
+				seen := map[string]bool{}
+				for _, ix := range idxs {
+					if !seen[ix] {
+						seen[ix] = true
+						t = store(t, T{ix, "Ref"}, ex.fresh("hv_"+k, elemSort(ex.comps[k])))
+					}
+				}
+				st.m[k] = ex.define(k, t)
+				continue
+			}
+		}
+		st.m[k] = ex.fresh(k, ex.comps[k])
+	}
+	ex.abstractions["closure passed to "+fr.callName[site]+" at "+ex.pos(instrPos(site))+": every component it assigns is havoced (it may run any number of times)"] = true
 }
